@@ -52,3 +52,27 @@ extern "C" void h_sequence_types(void) {
    }
    vp_done();
 }
+// declarations report exactly the type they were given, also when the same name was already declared with a type that differs only
+// slightly: function types that differ in the exception specification or in the transfer only, a type and its cv-qualified variant
+extern "C" void h_near_types(void) {
+   zoo::World* w = new zoo::World; auto& lx = w->lx;
+   impl::Warehouse<ipr::Type> wh; wh.push_back(lx.int_type());
+   const ipr::Product& P = lx.get_product(wh);
+   const ipr::Function* F[4] = { &lx.get_function(P, lx.bool_type()), &lx.get_function(P, lx.bool_type(), lx.true_value()),
+      &lx.get_function(P, lx.bool_type(), lx.get_transfer_from_linkage(lx.c_linkage())), &lx.get_function(P, lx.bool_type(), lx.true_value(), lx.get_transfer_from_linkage(lx.c_linkage())) };
+   const ipr::Type* V[3] = { &lx.int_type(), &lx.get_qualified(lx.const_qualifier(), lx.int_type()), &lx.get_qualified(lx.const_qualifier() | lx.volatile_qualifier(), lx.int_type()) };
+   const ipr::Name& nm = *w->N[0];
+   bool functions = vp_flag();
+   const ipr::Decl* d[3]; const ipr::Type* given[3];
+   for (int k = 0; k < 3; ++k) {
+      if (functions) { unsigned i = vp_pick(4); given[k] = F[i]; d[k] = w->reg->declare_fun(nm, *F[i]); }
+      else { unsigned i = vp_pick(3); given[k] = V[i]; d[k] = w->reg->declare_var(nm, *V[i]); }
+      for (int j = 0; j <= k; ++j) {
+         vp_assert(&d[j]->type() == given[j], 20);                                                    // exactly the type given at construction
+         vp_assert(&lx.make_id_expr(*d[j])->type() == given[j], 21);                                  // and an id-expression of it borrows that type
+      }
+      auto prod = util::view<ipr::Product>(w->reg->scope.type());
+      vp_assert(prod != nullptr && prod->size() == (std::size_t)(k + 1) && &(*prod)[k] == given[k], 22);
+   }
+   vp_done();
+}
